@@ -73,6 +73,16 @@ def load_attr(eng, obj, name, st, line=0):
                 raise Unsupported(f"method {name} of {type(obj).__name__} holding symbolic items")
             yield st, BoundMethod(obj, m)
             return
+        mm_ = eng.method_models.get((type(obj), name)) if not isinstance(obj, (type, types.ModuleType)) else None
+        if mm_ is not None:
+            # a concrete library value (e.g. the wrapped value of a module-level EMPTY constant): use the model of its
+            # class on the lifted object, so that symbolic arguments are handled
+            sv = SV(eng.lift(obj, st), hint=type(obj))
+            if getattr(mm_, "is_property", False):
+                yield from mm_.fn(eng, st, [sv], {})
+            else:
+                yield st, BoundMethod(sv, mm_)
+            return
         key = (id(obj), name)
         ov = eng.attr_overrides.get(key) if hasattr(eng, "attr_overrides") else None
         if ov is not None:
